@@ -87,7 +87,8 @@ def run(ctx):
         ctx.broken.append("R1 with KnownDefects = {chainIDUtf8}: TLC found no counterexample (%s)" % rd.error)
     exe = ctx.go_build("vh-signing")
     # ---- R2: every pair on the real code (specification as the code is, so that `eq` is comparable)
-    open(os.path.join(sd, "gen.cfg"), "w").write(CFG % dict(dom, defects=DEFECT, rest="ACTION_CONSTRAINT EmitEdge"))
+    gdom = dict(dom) if q else dict(dom, calpha="65, 92, 128, 239, 191, 189, 255")     # thorough: keep the export below ~400 k pairs
+    open(os.path.join(sd, "gen.cfg"), "w").write(CFG % dict(gdom, defects=DEFECT, rest="ACTION_CONSTRAINT EmitEdge"))
     pairs = ctx.path("pairs.ndjson")
     g = ctx.tlc(sd, "MC_SigningFields", "gen.cfg", timeout=1800, behaviours_out=pairs, count=False)
     if g.ok and g.behaviours == 0:
